@@ -140,6 +140,7 @@ def jitter_lib():
 
 JITTER_LIB = [None]
 MAX_TRACE_LINES = 400000
+MAX_ID_PACKETS = 3000     # packet identities are logged for runs with at most this many packets
 
 
 def run_config(binary, c, threads, jitter=None, trace=True, timeout=60):
@@ -158,6 +159,8 @@ def run_config(binary, c, threads, jitter=None, trace=True, timeout=60):
         tr = os.path.join(d, "trace.txt")
         if trace:
             env["CMAC_VERIF_TRACE"] = tr
+            if c["N"] <= MAX_ID_PACKETS:
+                env["CMAC_VERIF_PACKET_IDS"] = "1"
         if c.get("rhd"):
             res = simrun.run_sim(binary, rhd_param(c), ["--task-based-rhd", "--number-of-steps", "1"], threads=threads, timeout=timeout, trace=False, env=env, workdir=d)
         else:
@@ -184,7 +187,7 @@ def split_iterations(lines):
     its, cur = [], None
     for l in lines:
         w = l.split()
-        if len(w) < 2 or not w[1].startswith("P"):
+        if len(w) < 2 or w[1][0] not in "PQ":
             continue
         k = w[1]
         try:
@@ -300,6 +303,128 @@ def trace_oracles(E, it):
     return bad
 
 
+def identity_oracles(it):
+    """packet identities (hook records Q*, CMAC_VERIF_PACKET_IDS=1): every launched packet is terminated exactly once,
+    no packet is in two buffers at once, a buffer delivers the packets that were put into it, in order"""
+    iloop, N, bufsz = it["PI"][0], it["PI"][1], it["PI"][8]
+    if not any(k[0] == "Q" for (k, v) in it["events"]):
+        return []
+    bad = []
+    KEY = "photon:packet-identity"
+
+    def fail(text):
+        if len(bad) < 6:
+            bad.append((KEY, "iteration %d: %s" % (iloop, text)))
+    contents, where, launched, term = {}, {}, set(), {}
+    q = {}
+
+    def put(bid, ids, consumed=None):
+        for x in ids:
+            w = where.get(x)
+            if w is not None and w != bid and w != consumed:
+                fail("packet %d is put into buffer %d while it is still in buffer %d" % (x, bid, w))
+            where[x] = bid
+        if len(set(ids)) != len(ids):
+            dup = sorted(set(x for x in ids if ids.count(x) > 1))[:5]
+            fail("buffer %d holds packet(s) %s more than once" % (bid, dup))
+        contents[bid] = list(ids)
+
+    def finish(x, what):
+        term[x] = term.get(x, 0) + 1
+        if term[x] > 1:
+            fail("packet %d is terminated a second time (%s)" % (x, what))
+        if x not in launched:
+            fail("packet %d is terminated (%s) but was never launched in this iteration" % (x, what))
+    for (k, v) in it["events"]:
+        if k == "QS":
+            ids = v[2:]
+            for x in ids:
+                if x in launched:
+                    fail("packet identity %d is launched twice" % x)
+                launched.add(x)
+            put(v[1], ids)
+        elif k in ("QI", "QK"):
+            q.setdefault(v[0], {})[k] = (v[1], v[2:])
+        elif k in ("QF", "QO"):
+            q.setdefault(v[0], {})[k] = v[1:]
+        elif k == "QD":
+            q.setdefault(v[0], {}).setdefault("QD", []).append((v[1], v[2:]))
+        elif k == "PD":
+            th, i, out, new, add, snew, sadd = v
+            qq = q.get(th, {})
+            if "QI" not in qq or "QF" not in qq:
+                continue
+            b0, entering = qq["QI"]
+            fates = qq["QF"]
+            outs = [x for x, f in zip(entering, fates) if f == i]
+            qq.setdefault("stored", set()).add(i)
+            qd = dict(qq.get("QD", []))
+            qq["QD"] = []
+            before = contents.get(new, [])
+            combined = before + outs
+            got_new, got_add = qd.get(new, []), (qd.get(add, []) if add != new else [])
+            if got_new != combined[:bufsz] or got_add != combined[bufsz:]:
+                lost = sorted(set(combined) - set(got_new) - set(got_add))[:5]
+                twice = sorted(x for x in set(got_new + got_add) if (got_new + got_add).count(x) > 1)[:5]
+                fail("traversal of buffer %d, direction %d: buffer %d held %d packets and %d were added, but afterwards buffers %d/%d hold other packets "
+                     "than those (in order): missing %s, duplicated %s" % (b0, i, new, len(before), len(outs), new, add, lost, twice))
+            put(new, got_new, consumed=b0)
+            if add != new and got_add:
+                put(add, got_add, consumed=b0)
+        elif k == "PX":
+            th, g, b0, cnt, dn = v[:5]
+            qq = q.pop(th, {})
+            if "QI" not in qq or "QF" not in qq:
+                continue
+            qb, entering = qq["QI"]
+            fates = qq["QF"]
+            if qb != b0 or entering != contents.get(b0, None):
+                fail("traversal of buffer %d found packets %s..., the buffer was filled with %s..." % (b0, entering[:6], (contents.get(b0) or [])[:6]))
+            if len(fates) != len(entering):
+                fail("traversal of buffer %d: %d packets, %d exit directions" % (b0, len(entering), len(fates)))
+            stored = qq.get("stored", set())
+            gone = [x for x, f in zip(entering, fates) if f not in stored]
+            if len(gone) != dn:
+                fail("traversal of buffer %d: %d packets were not stored but %d were counted as done" % (b0, len(gone), dn))
+            for x in gone:
+                finish(x, "traversal of buffer %d" % b0)
+                if where.get(x) == b0:
+                    where.pop(x)
+            contents.pop(b0, None)
+        elif k == "PR":
+            th, g, b0, cnt, kept, dn = v
+            qq = q.pop(th, {})
+            if "QI" not in qq or "QO" not in qq or "QK" not in qq:
+                continue
+            entering = qq["QI"][1]
+            offered, accept = qq["QO"][0::2], qq["QO"][1::2]
+            if entering != contents.get(b0, None):
+                fail("re-emission of buffer %d found packets %s..., the buffer was filled with %s..." % (b0, entering[:6], (contents.get(b0) or [])[:6]))
+            if offered != entering:
+                n = next((j for j in range(min(len(offered), len(entering))) if offered[j] != entering[j]), min(len(offered), len(entering)))
+                fail("re-emission of buffer %d: attempt %d was made for packet %s instead of packet %s (every packet of the buffer must be offered exactly once, in order)"
+                     % (b0, n, offered[n] if n < len(offered) else None, entering[n] if n < len(entering) else None))
+            keep = [x for x, a in zip(offered, accept) if a]
+            if qq["QK"][1] != keep:
+                fail("re-emission of buffer %d: the accepted packets are %s... but the buffer continues with %s..." % (b0, keep[:6], qq["QK"][1][:6]))
+            for x in entering:
+                if x not in qq["QK"][1]:
+                    finish(x, "re-emission of buffer %d" % b0)
+                    if where.get(x) == b0:
+                        where.pop(x)
+            if qq["QK"][1]:
+                put(b0, qq["QK"][1], consumed=b0)
+            else:
+                contents.pop(b0, None)
+        elif k == "PE":
+            if len(launched) != N:
+                fail("%d packet identities were launched, %d packets requested" % (len(launched), N))
+            never = sorted(x for x in launched if term.get(x, 0) == 0)
+            if never:
+                fail("%d launched packets were never terminated, e.g. %s" % (len(never), never[:5]))
+    return bad
+
+
 def iteration_ops(E, it):
     """one iteration of the trace -> (op lines for the Lean driver, expected answers)"""
     ops, exp = [], []
@@ -339,6 +464,12 @@ def iteration_ops(E, it):
     op("init %d" % ncont, "init %d" % N)
     cur = {}                       # thread -> task
     acc = {}                       # thread -> pending PN/PD/PK records
+    qst = {}                       # thread -> staged packet identity records (hook records Q*)
+
+    def qbind(th, bid):
+        q = qst.get(th, {}).pop("QS", None)
+        if q is not None and q[0] == bid:
+            op("qbind %d %s" % (bid, " ".join(str(x) for x in q[1])), "qbind ok")
     kname = {E["TASKTYPE_SOURCE_DISCRETE_PHOTON"]: "source", E["TASKTYPE_SOURCE_CONTINUOUS_PHOTON"]: "contsource",
              E["TASKTYPE_PHOTON_TRAVERSAL"]: "traverse", E["TASKTYPE_PHOTON_REEMIT"]: "reemit",
              E["TASKTYPE_FLUSH_CONTINUOUS_PHOTON_BUFFERS"]: "flush"}
@@ -356,11 +487,20 @@ def iteration_ops(E, it):
         elif k == "PY":
             if v[1] >= 0:
                 op("acq %d" % v[1], "acq-by-exiting-thread")
+        elif k == "QS":
+            qst.setdefault(v[0], {})["QS"] = (v[1], v[2:])
+        elif k in ("QI", "QK"):
+            qst.setdefault(v[0], {})[k] = (v[1], v[2:])
+        elif k in ("QF", "QO"):
+            qst.setdefault(v[0], {})[k] = v[1:]
+        elif k == "QD":
+            qst.setdefault(v[0], {}).setdefault("QD", []).append((v[1], v[2:]))
         elif k == "PQ":
             op("enq %d" % v[1], "enq")
         elif k == "PB":
             th, src, n, bid, sub, t2, q = v
             op("srcx %d %d %d" % (cur.get(th, -1), bid, t2), "srcx buf=%d task=traverse %d %d pending" % (n, sub, bid))
+            qbind(th, bid)
         elif k in ("PN", "PD", "PK"):
             acc.setdefault(v[0], []).append((k, v))
         elif k == "PX":
@@ -377,18 +517,31 @@ def iteration_ops(E, it):
                     nt = recs[j + 1][1][1]
                 dirs.append("%d:%d:%d:%d:%d" % (i, out, newact.get(i, -1), add if add != new else -1, nt))
                 per.append("d%d=%d,%s" % (i, snew, str(sadd) if add != new else "-"))
+            q = qst.pop(th, {})
+            if "QI" in q and "QF" in q:
+                op("qin %d %s" % (cur.get(th, -1), " ".join(str(x) for x in q["QI"][1])), "qin ok")
+                op("qfate %s" % " ".join(str(x) for x in q["QF"]), "qfate ok")
             op("trav %d %d %s" % (cur.get(th, -1), dn, " ".join(dirs)),
                ("trav sub=%d in=%d done=%d largest=%d,%d %s" % (g, cnt, dn, li, ls, " ".join(per))).rstrip())
+            for (qb, qids) in q.get("QD", []):
+                op("qbuf %d %s" % (qb, " ".join(str(x) for x in qids)), "qbuf ok")
             acc[th] = []
         elif k == "PR":
             th, g, b0, cnt, kept, dn = v
             recs = acc.get(th, [])
             t2 = recs[0][1][1] if recs and recs[0][0] == "PK" else 0
+            q = qst.pop(th, {})
+            if "QI" in q and "QO" in q:
+                op("qin %d %s" % (cur.get(th, -1), " ".join(str(x) for x in q["QI"][1])), "qin ok")
+                op("qkeep %s" % " ".join(str(x) for x in q["QO"][1::2]), "qkeep ok")
             op("reem %d %d %d" % (cur.get(th, -1), kept, t2), "reem in=%d kept=%d done=%d" % (cnt, kept, dn))
+            if "QK" in q and kept > 0:
+                op("qbuf %d %s" % (b0, " ".join(str(x) for x in q["QK"][1])), "qbuf ok")
             acc[th] = []
         elif k == "PO":
             th, blk, g, bid, t2, q = v
             op("cover %d %d %d %d" % (cur.get(th, -1), g, bid, t2), "cover buf=%d task=traverse %d %d queued" % (bufsz, g, bid))
+            qbind(th, bid)
         elif k == "PC":
             th, blk, n, left = v[:4]
             sizes = v[4:]
@@ -399,6 +552,7 @@ def iteration_ops(E, it):
         elif k == "PL":
             th, blk, g, cnt, bid, t2, q = v
             op("fone %d %d %d %d" % (cur.get(th, -1), g, bid, t2), "fone buf=%d task=traverse %d %d queued" % (cnt, g, bid))
+            qbind(th, bid)
         elif k == "PH":
             op("ffin %d" % cur.get(v[0], -1), "ffin ok")
         elif k == "PP":
@@ -590,7 +744,7 @@ def run_and_check(ctx, E, binary, job, drv_jobs):
         st["oracle_failures"] += 1
         # what the trace shows up to the point where the run got stuck
         for it in its:
-            bad = [(k, tx) for (k, tx) in trace_oracles(E, it) if k not in ("photon:iteration-not-finished", "photon:task-not-executed")]
+            bad = [(k, tx) for (k, tx) in trace_oracles(E, it) + identity_oracles(it) if k not in ("photon:iteration-not-finished", "photon:task-not-executed")]
             for (key, text) in bad[:3]:
                 ctx.violation(key, "%s (%s, run later hangs)" % (text, what), dict(rep, trace=[" ".join([k] + [str(x) for x in v]) for (k, v) in it["events"] if k != "PG"][:3000]))
             if trace and not bad:
@@ -613,7 +767,7 @@ def run_and_check(ctx, E, binary, job, drv_jobs):
     ctx.distinct((tuple(c["layout"]), tuple(c["per"]), c["N"], c.get("copy", 0), c.get("mode"), bool(c.get("diffuse")), threads, jitter),
                  nontrivial=(c["layout"] != (1, 1, 1) or c.get("diffuse") or c["N"] > 200))
     for it in its:
-        bad = trace_oracles(E, it)
+        bad = trace_oracles(E, it) + identity_oracles(it)
         if c.get("rhd"):
             # the radiation-hydrodynamics loop keeps its (finished) temperature tasks until the end of the hydro step
             bad = [(("photon:rhd-task-slots-left-behind" if (k == "photon:task-left-behind" and "tasks in use" in tx) else k), tx) for (k, tx) in bad]
@@ -655,7 +809,10 @@ def replay_traces(ctx, drv_jobs):
                 st["mismatches"] += 1
                 if not dirty:
                     obj = dict(rep, iteration=iloop, ops=ops[:i + 1][-400:], impl=exp[i], model=m)
-                    if "DISABLED" in m:
+                    if ops[i].startswith("q") and "BAD" in m:
+                        ctx.violation("photon:packet-identity", "iteration %d of %s: the packets the implementation reports ('%s ...') are not the packets the protocol model has there (%s)"
+                                      % (iloop, what, ops[i][:60], vlib.strip_branch(m)[:200]), obj)
+                    elif "DISABLED" in m:
                         ctx.violation("photon:event-not-allowed", "iteration %d of %s: the implementation performed '%s' (logged: %s), which the protocol model does not allow in that state (%s)"
                                       % (iloop, what, ops[i], exp[i], vlib.strip_branch(m)), obj)
                     else:
